@@ -270,8 +270,12 @@ def layout_phase(run, tier, seed):
         # that was rejected in B1 (a violation reported from treports) simply has no windows
         rejected = {r['cid'] for r in treports if any(o['verdict'] in ('reject', 'dev') for o in r['other'])}
         unexplained = [w for w in skipped if 't-%s' % w['tid'] not in rejected]
-        if unexplained:
-            raise pl.Machinery('texts without tokens: %s' % unexplained[:3])
+        for w in unexplained:
+            # never seen on the unchanged tree: the recorded lines of this text and the text itself disagree in length,
+            # i.e. what ignore_comments returned is not a blanked copy of its input -- a rejected observation
+            treports.append({'cid': 't-%s' % w['tid'], 'n': 1, 'ok': 0, 'other': [
+                {'vi': 0, 'codec': '', 'ne': False, 'check': 'TEXT', 'verdict': 'reject',
+                 'detail': 'ignore_comments did not return a same-length copy of the text (%s)' % w['skip']}]})
         wins = [w for w in wins if 'skip' not in w]
     by_tid = {t['tid']: t for t in texts}
 
